@@ -12,9 +12,10 @@
 //       unwound 11 times through --unwindset), every type of the schema table.
 //         roundtrip: v conforming to the type -> bytes -> same v, nothing left over; every strict
 //                    prefix of the encoding is rejected.
-//         bytes    : arbitrary input (<= 12 bytes): never panics; Ok(v) => v conforms to the type
-//                    (tags, enum range, UTF-8, NUL, id length were checked), v round-trips, and
-//                    no strict prefix of the consumed bytes is itself accepted.
+//         bytes    : arbitrary input (<= 12 bytes, symbolic length): never panics; Ok(v) => v
+//                    conforms to the type (tags, enum range, UTF-8, NUL, id length were checked;
+//                    conforming values round-trip by the harness above) and no strict prefix of
+//                    the consumed bytes is itself accepted.
 //   struct layer (c26_struct_*): the real `serialize_struct` / `deserialize_struct` entry points
 //       over the same schema table with ints limited to 2-byte encodings (global unwind 3): field
 //       order, the trailing-data check, truncation, unknown definitions, arbitrary short inputs.
@@ -344,26 +345,16 @@ fn value_check_bytes(s: Sch, sd: &StructDefs, ed: &EnumDefs, ty: &TypeKind, b: &
             assert!(rest <= b.len());
             let used = b.len() - rest;
             assert!(conforms(s, d), "accepted value violates the type");
-            match ser_value(sd, d) {
-                Ok(c) => {
-                    if s == Sch::Id {
-                        assert!(c.len() == used, "id: consumed bytes differ from re-encoding");
-                        let w: usize = kani::any();
-                        if w < c.len() && w < used {
-                            assert!(c[w] == b[w], "id: consumed bytes differ from re-encoding");
-                        }
-                    }
-                    let (r2, rest2) = de_value(sd, ed, ty, &c);
-                    match &r2 {
-                        Ok(d2) => {
-                            assert!(same_value(s, d2, d), "decoded value does not round-trip");
-                            assert!(rest2 == 0);
-                        }
-                        Err(_) => assert!(false, "re-encoding rejected"),
-                    }
-                    core::mem::forget((r2, c));
+            // (that a conforming value round-trips is decided by c26_value_roundtrip_*)
+            if s == Sch::Id {
+                // ids of the wrong length: exactly the length byte 32 and 32 payload bytes were
+                // consumed and they are the value
+                assert!(used == 33 && b[0] == 32, "id: wrong number of bytes consumed");
+                if let Value::Id(x) = d {
+                    let w: usize = kani::any();
+                    kani::assume(w < 32);
+                    assert!(x.as_bytes()[w] == b[1 + w], "id: payload differs from the input");
                 }
-                Err(_) => assert!(false, "decoded value cannot be serialized"),
             }
             // no strict prefix of the consumed bytes is accepted (truncation)
             let k: usize = kani::any();
